@@ -271,6 +271,7 @@ pub fn random_batches(opts: &Opts, out: &mut Out, rng: &mut rand_chacha::ChaCha1
 
 pub fn c03(opts: &Opts, out: &mut Out) {
     let mut rng = chacha(opts.seed, 3);
+    crate::scen_core::encoding_collisions(opts, out, "C03");
     let t = 1 + (opts.seed as usize % 3);
     let n = 2usize;
     // template pool: valid members of mixed aggregation / capacity / seeding, and invalid variants
